@@ -71,6 +71,29 @@ def corpus(tier, seed):
     p = os.path.join(d, "block_many.zy")
     open(p, "w").write(BLOCK_MANY % (lets, sums, n))
     files.append(p)
+    # rejected programs with SEVERAL culprits of one kind: the one that is reported must not depend on hash order
+    # (a) one pattern redefines four earlier block names; (b) five mutually recursive types, four with a kind error;
+    # (c) a cycle through four values
+    prelude = ('begin\n  param (\n    (/core; /representations; /system) :\n    @(import("/repo/lib/std/builtin.zy"))\n  ) that\n'
+               '  let (/VType; /Ret; /Unit) = core that\n  let (/Scalar = Int64) = representations/i64 that\n  let (/process) = system that\n')
+    names = ["a", "b", "c", "d"]
+    body = "".join("  let %s = %d that\n" % (x, i) for i, x in enumerate(names)) + "  let (a, b, c, d) = (1, 2, 3, 4) that\n"
+    p = os.path.join(d, "dup_pattern.zy")
+    open(p, "w").write(prelude + body + "  ! (process/exit) 0\nend\n")
+    files.append(p)
+    tys = ["A", "B", "C", "D", "E"]
+    body = ""
+    for i, t in enumerate(tys):
+        nxt = tys[(i + 1) % len(tys)]
+        body += "  def %s : VType =\n    data\n    | +%s0 : Unit\n    | +%s1 : %s\n    end\n  that\n" % (t, t, t, nxt if i == 0 else nxt + " Unit")
+    p = os.path.join(d, "rec_group_faulty.zy")
+    open(p, "w").write(prelude + body + "  ! (process/exit) 0\nend\n")
+    files.append(p)
+    vals = ["w", "x", "y", "z"]
+    body = "".join("  let %s : Int64 = %s that\n" % (v, vals[(i + 1) % len(vals)]) for i, v in enumerate(vals))
+    p = os.path.join(d, "value_cycle.zy")
+    open(p, "w").write(prelude + body + "  ! (process/exit) w\nend\n")
+    files.append(p)
     return files
 
 
@@ -102,7 +125,9 @@ def run(prop, tier):
     res0 = lib.run_tlc("ZyGraph.tla", "MC_ZyGraph_alg3.cfg", os.path.join(W, "graph.tlc.out"), workers=12, coverage=False, timeout=3000)
     files = corpus(tier, seed)
     n = 5 if tier == "quick" else 25
-    jobs = [(c, f, r) for f in files for c in COMMANDS for r in range(n)]
+    # the multi-culprit programs get more processes: two equally likely outcomes survive 12 runs with probability 2^-11
+    adversarial = ("dup_pattern.zy", "rec_group_faulty.zy", "value_cycle.zy", "rejected_multi.zy")
+    jobs = [(c, f, r) for f in files for c in COMMANDS for r in range(max(n, 12) if os.path.basename(f) in adversarial and c == ["check"] else n)]
     with ThreadPoolExecutor(max_workers=16) as ex:
         results = list(ex.map(one, jobs))
     require(len(results) >= 500, "too few process runs")
